@@ -37,8 +37,10 @@
             stream's exception() is already set - the error never reached the waiting read)
      budget the step budget was exhausted
      end    always last
-   obs = {size, low, high, consumed, steps, st}: size = total_bytes - consumed (public counters),
-         -1 while unknown; low/high = get_read_buffer_limits(); st = 1: outside a parser call the
+   obs = {size, low, high, consumed, steps, st, req}: size = total_bytes - consumed (public counters),
+         -1 while unknown; low/high = get_read_buffer_limits() (informative); req = largest chunk size
+         the application asked for so far (read(n), iter_chunked(n), explicit max_size, client_max_size
+         for BaseRequest.read(); >= CAP after read()); st = 1: outside a parser call the
          payload parser still remembers a pause request although it holds nothing back (private
          peek; used only to NAME a failure, never to produce one).
 
@@ -74,9 +76,13 @@ C == Cfg(tid)
 \* output_buffer_limit as "stop growing the output buffer once it has reached the limit": its
 \* buffer grows in blocks of 32 KiB, 64 KiB, 128 KiB ... so one call returns less than
 \* 2 * limit + 32 KiB (third-party semantics, cf. THREAT_MODEL 5.5 "backend max_length honouring")
-CallCap(o) == IF C.br THEN 2 * Max(C.limit, o.low) + 32768 ELSE Max(C.limit, o.low)
-ResidentBound(o) == o.high + (IF C.identity THEN C.maxPiece ELSE CallCap(o))
-ResidentBad(o) == o.size >= 0 /\ o.low < CAP /\ o.high < CAP /\ o.size > ResidentBound(o)
+\* The bounds are relative to Lim(o) = max(read_bufsize, largest chunk size the APPLICATION asked for so
+\* far) - not to the reader's current water marks: limits that the code raises on its own (e.g. per
+\* line read) must not lift the bound.  o.req >= CAP: the application asked for everything (read()).
+Lim(o) == Max(C.limit, o.req)
+CallCap(o) == IF C.br THEN 2 * Lim(o) + 32768 ELSE Lim(o)
+ResidentBound(o) == 2 * Lim(o) + (IF C.identity THEN C.maxPiece ELSE CallCap(o))
+ResidentBad(o) == o.size >= 0 /\ o.req < CAP \div 4 /\ o.size > ResidentBound(o)
 \* BaseRequest.read(): low water = client_max_size, so at most client_max_size + (high + one call) bytes
 \* have been decoded when the 413 test fires
 AccBound == LET mx == Max(C.limit, C.cms) IN C.cms + 2 * mx + (IF C.identity THEN C.maxPiece ELSE IF C.br THEN 2 * mx + 32768 ELSE mx)
@@ -97,7 +103,7 @@ EvBad(e) ==
     LET o == e.obs IN
     IF ResidentBad(o) THEN "Resident"
     ELSE CASE e.ev = "dec" ->
-                IF ~C.identity /\ o.low < CAP /\ e.m > CallCap(o) THEN "OneCallBudget" ELSE ""
+                IF ~C.identity /\ o.req < CAP \div 4 /\ e.m > CallCap(o) THEN "OneCallBudget" ELSE ""
            [] e.ev = "read" ->
                 IF errSeen /\ e.m > 0 THEN "DataAfterError"
                 ELSE IF outcome = "eof" /\ e.m > 0 THEN "DataAfterEof"
